@@ -30,6 +30,7 @@ FormatOK(kind, f, ctx) ==
   /\ (kind \in {"float32", "float64"} => f \in {"dec"})
   /\ (kind \in {"complex64", "complex128"} => f \in {"dec", "hex"})      \* hex stands for "the literal is the imaginary part"
   /\ (f = "ws" => ctx = "slice")
+  /\ (f \in {"fdot", "fexp"} => kind \in IntKinds \cup UintKinds /\ ctx = "string")   \* integers written in float notation: may be rejected, never wrapped
 RangeCases == {[fam |-> "range", kind |-> k, b |-> b, off |-> o, fmt |-> f, ctx |-> c, accept |-> InRange(k, b, o)] :
                  k \in IntKinds \cup UintKinds \cup FloatKinds, b \in Boundaries, o \in Offsets, f \in Formats, c \in {"string", "slice"}}
 GoodRange == {c \in RangeCases : FormatOK(c.kind, c.fmt, c.ctx) /\ ~(c.kind \in FloatKinds /\ c.ctx = "slice")
